@@ -132,6 +132,9 @@ def prune_world(wj: Dict[str, Any], ops: List[Any]) -> Dict[str, Any]:
     m = wj["m"]
     keep = set(h for h, d in m.items() if d["kind"] == "db")
     work = [a for op in ops for a in op if isinstance(a, str) and a in m]
+    # handles inside composite arguments ("list:t1,r2")
+    work += [x for op in ops for a in op if isinstance(a, str) and ":" in a
+             for x in a.split(":", 1)[1].split(",") if x in m]
     # anything contained in a database at the start stays
     for h, d in m.items():
         if d["kind"] == "db":
